@@ -41,9 +41,28 @@ def replay(pid, path):
     return 0
 
 
+DEN_RULE = ("cases = generated grammar x input string x configuration; counted as non-trivial: rule invocations whose "
+            "observed outcome was compared with the denotation (Den) by TLC")
+
+NOT_YET = {}
+
+L_DEN = ("TLC compares the observed outcome (result, consumed prefix, exception class) of every rule invocation of every "
+         "generated grammar x input x configuration with the denotation Den evaluated on the grammar table extracted "
+         "from the compiled types; ")
+
 PROPS = {
+    "C09": {
+        "families": ["conv"],
+        "level": L_DEN + "convenience rules are defined in the specification by their documented expansions (Desugar), "
+                 "instantiated with consuming, consume-then-fail, nullable and raising sub-rules and bounds 0..4",
+        "must_count": ["den", "cases"],
+        "nontrivial_key": "den",
+        "rule": DEN_RULE,
+    },
     "C01": {
         "families": ["core"],
+        "level": L_DEN + "all depth<=1 grammars over the core operators and atoms plus a seeded sample of deeper, recursive "
+                 "grammars, crossed with apply mode, top-level rewind mode and void-action attachment",
         "must_count": ["den", "cases"],
         "nontrivial_key": "den",
         "rule": "cases = generated grammar x input string x configuration; counted as non-trivial: rule invocations whose "
